@@ -27,11 +27,11 @@ func init() {
 	Register(&Scenario{
 		Name:  "receipts",
 		Props: []string{"C18"},
-		Plan:  simple(60000, 800000),
+		Plan:  simple(60000, 10000000),
 		Run:   runReceipts,
 		Real:  []string{"smpp34.ExtractDeliveryReceipt", "smgp30.ExtractDeliveryReceipt", "cmpp.SubPduDeliveryContent.IEncode / IDecode", "IEncode / IDecode / dispatch of SubmitSmResp, DeliverSm, smgp30.SubmitResp, smgp30.Deliver, cmpp20.PduSubmitResp, cmpp20.PduDeliver", "codec framers"},
 		Stub:  []string{"SMSC receipt generator (key order, subset, spelling, values)", "link carrying responses and receipts in a tape-chosen order", "ESME correlation table"},
-		Rule:  "1..6 messages per run; receipt texts built from the eight standard keys in a tape-chosen order and subset, values any space-free strings without ':' (also longer than the field width), SMGP ids any ten octets without ':'; CMPP status reports with arbitrary field values. Non-trivial = a non-canonical key order / subset / spelling was used or a receipt overtook its response; distinct = distinct event-log hash",
+		Rule:  "1..6 messages per run; receipt texts built from the eight standard keys in a tape-chosen order and subset, values any space-free strings that contain no key token (plain, arbitrary octets, multi-byte runes whose case mappings change length, colons and upper-case look-alikes of the keys; also longer than the field width), SMGP ids any ten octets without ':'; CMPP status reports with arbitrary field values. Non-trivial = a non-canonical key order / subset / spelling was used or a receipt overtook its response; distinct = distinct event-log hash",
 	})
 }
 
@@ -53,6 +53,12 @@ type rcptMsg struct {
 	rcptFirst bool
 }
 
+var rcptTokens = []string{"id:", "sub:", "dlvrd:", "stat:", "err:", "text:", "Sub:", "Dlvrd:", "Submit_Date:", "Done_Date:", "Stat:", "Err:", "Text:"}
+
+// genRcptValue: any space-free string that does not itself contain a key token
+// (both SMGP spellings count). Besides plain alphanumerics it produces
+// arbitrary octets (invalid UTF-8 included), multi-byte runes whose case
+// mappings change length, colons and upper-case look-alikes of the keys.
 func genRcptValue(c *core.Chooser, key string) string {
 	w := rcptWidth[key]
 	var n int
@@ -68,11 +74,51 @@ func genRcptValue(c *core.Chooser, key string) string {
 		n = 1
 	}
 	const alpha = "ABCDEFGHIJKLMNOPQRSTUVWXYZabcdefghijklmnopqrstuvwxyz0123456789-_./+"
-	b := c.Blob(n, "any")
-	for i := range b {
-		b[i] = alpha[int(b[i])%len(alpha)]
+	var v string
+	switch c.Pick(5, 2, 2, 2) {
+	case 0:
+		b := c.Blob(n, "any")
+		for i := range b {
+			b[i] = alpha[int(b[i])%len(alpha)]
+		}
+		v = string(b)
+	case 1: // arbitrary octets
+		b := c.Blob(n, "nonul")
+		for i := range b {
+			if b[i] == ' ' {
+				b[i] = '_'
+			}
+		}
+		v = string(b)
+	case 2: // runes whose lower/upper case forms have another length, Latin-1 octets
+		specials := []string{"İ", "K", "ß", "ǅ", "é", "\xe9", "Zürich", "ſ", "Å"}
+		for len(v) < n {
+			if c.Bool() {
+				v += specials[c.Intn(len(specials))]
+			} else {
+				v += string(alpha[c.Intn(len(alpha))])
+			}
+		}
+	default: // colons and look-alikes of the keys in another case
+		looks := []string{"ID:", "SUB:", "Id:", "STAT:", "ERR:", "TEXT:", "DLVRD:", ":", "::", "a:b", "Date:", "date:", "sTat:"}
+		for len(v) < n {
+			if c.Bool() {
+				v += looks[c.Intn(len(looks))]
+			} else {
+				v += string(alpha[c.Intn(len(alpha))])
+			}
+		}
 	}
-	return string(b)
+	// never a real key token inside a value
+	for _, t := range rcptTokens {
+		for strings.Contains(v, t) {
+			v = strings.Replace(v, t, strings.ToUpper(t[:1])+"_"+t[1:len(t)-1]+"=", 1)
+		}
+	}
+	if strings.ContainsAny(v, " ") {
+		v = strings.ReplaceAll(v, " ", "_")
+	}
+	return v
 }
 
 func runReceipts(r *core.Run) {
